@@ -327,7 +327,83 @@ def c12(tr, sem=None):
     return v
 
 
-EVERYWHERE = ('C04', 'C12', 'C13', 'C14', 'C19')      # monitors that need no fragment hypothesis
+# ------------------------------------------------------------------------------------------- C06
+def plain_graph(graph):
+    return not any(n['is_switch'] or n['is_oneof_head'] or n['start_node'] is not None or n.get('is_oneof_child')
+                   for n in graph['nodes']) and all(e['case'] is None for e in graph['edges'])
 
-ALL = {'C12': c12, 'C01': c01, 'C02': c02, 'C03': c03, 'C04': c04, 'C05': c05, 'C09': c09, 'C10': c10, 'C11': c11,
+
+def depths(graph):
+    """longest path from the input node, over the nodes of the main DAG (ancestors of the output)"""
+    pred = {n['id']: [] for n in graph['nodes']}
+    for e in graph['edges']:
+        pred[e['v']].append(e['u'])
+    memo = {}
+
+    def dep(n):
+        if n not in memo:
+            memo[n] = 0 if not pred[n] else 1 + max(dep(p) for p in pred[n])
+        return memo[n]
+    need, st = {graph['output']}, [graph['output']]
+    while st:
+        for p in pred[st.pop()]:
+            if p not in need:
+                need.add(p)
+                st.append(p)
+    return {n: dep(n) for n in need}
+
+
+def c06(tr, sem=None):
+    """plain pipelines: whenever the loop is idle (nothing can run without a body / timer completing) every node whose
+    lower depths have all completed has been started."""
+    g = tr['graph']
+    if not plain_graph(g):
+        return []
+    v = []
+    dep = depths(g)
+    started, completed = set(), set()
+    st = tr.setdefault('stats', {})
+    for ev in _events(tr):
+        if ev.get('rid', 0) != 0 and ev['k'] == 'step':
+            continue
+        if ev['k'] in ('gate', 'timer') and ev.get('idle') and not v:
+            st['c06_idle_points'] = st.get('c06_idle_points', 0) + 1
+            if len(started - completed) >= 2:
+                st['c06_idle_points_with_2+_in_flight'] = st.get('c06_idle_points_with_2+_in_flight', 0) + 1
+            for n, dn in dep.items():
+                if n not in started and all(m in completed for m, dm in dep.items() if dm < dn):
+                    v.append(f'loop idle, every node of depth < {dn} has completed, node {n} (depth {dn}) has not been '
+                             f'started; in flight: {sorted(started - completed)}')
+                    break
+        for o in ev.get('obs', []):
+            if o[0] == 'emit' and o[1] == 'nstart':
+                started.add(o[3])
+            elif o[0] == 'emit' and o[1] == 'ncomplete' and o[4] is None:
+                completed.add(o[3])
+    return v
+
+
+def c06_oracle(tr):
+    """hypothesis `LaunchByDepth` of the C06 theorems: every list `_get_node_order` returned for a plain pipeline is
+    sorted by depth.  Not a violation by itself: a broken hypothesis means the theorem no longer applies."""
+    g = tr['graph']
+    if not plain_graph(g):
+        return []
+    dep = depths(g)
+    st = tr.setdefault('stats', {})
+    v = []
+    for _, o in _obs(tr, ('topo',)):
+        st['c06_orders_checked'] = st.get('c06_orders_checked', 0) + 1
+        ds = [dep[x] for x in o[1] if x in dep]
+        if ds != sorted(ds):
+            v.append(f'_get_node_order returned {o[1]} (depths {ds}): not generation by generation, hypothesis '
+                     f'LaunchByDepth of C06_plain_next_depth_started does not hold')
+    return v
+
+
+HYPOTHESES = {'C06': c06_oracle}
+
+EVERYWHERE = ('C04', 'C06', 'C12', 'C13', 'C14', 'C19')      # monitors that need no fragment hypothesis
+
+ALL = {'C12': c12, 'C06': c06, 'C01': c01, 'C02': c02, 'C03': c03, 'C04': c04, 'C05': c05, 'C09': c09, 'C10': c10, 'C11': c11,
        'C13': c13, 'C14': c14, 'C19': c19}
